@@ -17,6 +17,11 @@ import modelx as mx                            # noqa: E402
 from modelx.core.errors import FormulaError, DeletedObjectError  # noqa: E402,F401
 
 
+def use_formula_memo():
+    with notrace():
+        shim.memo_formulas()
+
+
 class Ctx:
     """State of the current path; reset by the worker before every path."""
 
